@@ -1,25 +1,32 @@
 /-
-C15 — property theorems for the on-disk state machine (`J2O.Model.C15`).
+C15 — property theorems for the on-disk state machine (`J2O.Model.C15`), the code after fix
+f6799b2 (a stale sidecar is removed before a standard export).
 
 All statements hold for EVERY spill rule `spills` (any threshold), every prior disk content
 (no main file, any main file, no / empty / arbitrary sidecar) and every model.
 
-* `load_export`            one export (standard or web, not refused): what `onnx.load` returns is
-                           exactly the exported model — graph and every tensor, byte for byte
-* `load_history`, `load_last`  every history of exports to one path: what is loaded afterwards is
-                           exactly the last export that was carried out
+* `load_export`            one export (standard or web) that is carried out: what `onnx.load`
+                           returns is exactly the exported model — graph and every tensor, byte for byte
+* `load_last`              every history of exports to one path: if the last export is carried out,
+                           what is loaded afterwards is exactly that export (earlier exports, refused
+                           exports, garbage on disk do not matter)
+* `load_history`           … and for histories without refused exports, after every prefix
+* `export_history_independent`  the files a standard/web export leaves depend on the request only —
+                           not on anything that was on disk before (no append, no growth)
+* `sidecar_is_exactly_the_spilled_tensors`, `stale_never_referenced`
+                           the sidecar after a standard export consists of exactly the payloads this
+                           export spilled, in order; every external reference lies inside it
 * `web_self_contained`     after a web export: no external reference, no sidecar; the load does
                            not depend on any sidecar content
-* `stale_never_referenced` after a standard export every external reference lies inside the bytes
-                           appended by THAT export; the older sidecar bytes are kept but unreachable
 * `modes_agree`            for one request both file modes (from arbitrary, different prior disks)
                            load to the same model, which is the in-memory (`proto`) result
 * `layout_step`            the length-level machine the driver runs is the projection of the byte level
-* `export_succeeds_partial` / `export_always_succeeds_refuted`
-                           a standard export is carried out unless a file with the sidecar's name
-                           exists in the current working directory; the unconditional statement is
-                           false (replayed on the real code: two standard exports to a relative path
-                           raise FileExistsError the second time)
+* `export_succeeds_partial` / `export_always_succeeds_refuted` / `refused_export_drops_sidecar`
+                           RESIDUAL after the fix: a standard export is still refused
+                           (FileExistsError from onnx) when a FOREIGN file with the sidecar's name
+                           exists in the current working directory; the destination's sidecar has
+                           already been removed by then (replayed on the real code)
+* regression (old step `exportStdOld`): `old_export_appends`, `old_sidecar_grows_new_does_not`
 -/
 import J2O.Lemmas.C15
 set_option linter.unusedSimpArgs false
@@ -32,7 +39,7 @@ theorem load_exportStd (spills : Tensor → Bool) (m : Model) (d : Disk) :
   unfold exportStd
   split
   · simp only [load]
-    have := place_read spills m.tensors (d.side.getD []) []
+    have := place_read spills m.tensors [] []
     simp only [List.append_nil] at this
     rw [this]
     rfl
@@ -57,18 +64,6 @@ theorem load_export (spills : Tensor → Bool) (d : Disk) (op : Op)
     | true => simp [hc] at hok
     | false => simp only [hc, Bool.false_eq_true, if_false]; exact load_exportStd _ _ _
 
-/-- a refused export leaves the disk untouched -/
-theorem step_refused_unchanged (spills : Tensor → Bool) (d : Disk) (op : Op)
-    (h : (step spills d op).2 = false) : (step spills d op).1 = d := by
-  unfold step at h ⊢
-  cases hm : op.mode with
-  | web => simp [hm] at h
-  | standard =>
-    simp only [hm] at h ⊢
-    cases hc : op.clash with
-    | true => simp [hc]
-    | false => simp [hc] at h
-
 /-- is the export carried out? (depends on the request only) -/
 def Op.ok (op : Op) : Bool :=
   match op.mode with
@@ -79,41 +74,73 @@ theorem step_ok_eq (spills : Tensor → Bool) (d : Disk) (op : Op) : (step spill
   unfold step Op.ok
   cases op.mode <;> cases op.clash <;> simp
 
-/-- the model a reader of the path gets after the history, given what was loadable before -/
-def lastOk : List Op → Option Model → Option Model
-  | [], acc => acc
-  | op :: rest, acc => lastOk rest (if op.ok then some op.model else acc)
-
-/-- **Every history.** -/
-theorem load_history (spills : Tensor → Bool) : ∀ (h : List Op) (d : Disk),
-    load (run spills d h) = lastOk h (load d) := by
-  intro h
-  induction h with
-  | nil => intro d; rfl
-  | cons op rest ih =>
-    intro d
-    simp only [run, lastOk]
-    rw [ih]
-    cases hok : op.ok with
-    | true =>
-      have := load_export spills d op (by rw [step_ok_eq]; exact hok)
-      simp [this]
-    | false =>
-      have := step_refused_unchanged spills d op (by rw [step_ok_eq]; exact hok)
-      simp [this]
-
-theorem lastOk_append (pre : List Op) (op : Op) : ∀ acc,
-    lastOk (pre ++ [op]) acc = if op.ok then some op.model else lastOk pre acc := by
+theorem run_append (spills : Tensor → Bool) : ∀ (pre : List Op) (op : Op) (d : Disk),
+    run spills d (pre ++ [op]) = (step spills (run spills d pre) op).1 := by
+  intro pre
   induction pre with
-  | nil => intro acc; simp [lastOk]
-  | cons p ps ih => intro acc; simp only [List.cons_append, lastOk]; exact ih _
+  | nil => intro op d; rfl
+  | cons p ps ih => intro op d; simp only [List.cons_append, run]; exact ih op _
 
 /-- **What you load is exactly the last export**, whatever was exported to the path before
-    (standard then web, large then small, any number of times). -/
+    (standard then web, large then small, any number of times, refused exports in between). -/
 theorem load_last (spills : Tensor → Bool) (pre : List Op) (op : Op) (d : Disk) (hok : op.ok = true) :
     load (run spills d (pre ++ [op])) = some op.model := by
-  rw [load_history, lastOk_append, hok]
-  rfl
+  rw [run_append]
+  exact load_export spills _ op (by rw [step_ok_eq]; exact hok)
+
+/-- the model a reader gets after a history in which every export is carried out -/
+def lastModel : List Op → Option Model → Option Model
+  | [], acc => acc
+  | op :: rest, _ => lastModel rest (some op.model)
+
+/-- **Every history without refused exports.** -/
+theorem load_history (spills : Tensor → Bool) : ∀ (h : List Op) (d : Disk),
+    (∀ op ∈ h, op.ok = true) → load (run spills d h) = lastModel h (load d) := by
+  intro h
+  induction h with
+  | nil => intro d _; rfl
+  | cons op rest ih =>
+    intro d hall
+    simp only [run, lastModel]
+    rw [ih _ (fun o ho => hall o (by simp [ho]))]
+    rw [load_export spills d op (by rw [step_ok_eq]; exact hall op (by simp))]
+
+/-- **History independence**: what an export that is carried out leaves on disk does not depend
+    on what was there before — no append, no growth, no stale bytes. -/
+theorem export_history_independent (spills : Tensor → Bool) (op : Op) (d d' : Disk)
+    (hok : op.ok = true) : (step spills d op).1 = (step spills d' op).1 := by
+  unfold step Op.ok at *
+  cases hm : op.mode with
+  | web => simp [exportWeb]
+  | standard =>
+    simp only [hm] at hok
+    have hc : op.clash = false := by cases h : op.clash <;> simp_all
+    simp [hc, exportStd]
+
+/-- **The sidecar is exactly this export's spilled tensors**, in order. -/
+theorem sidecar_is_exactly_the_spilled_tensors (spills : Tensor → Bool) (m : Model) (d : Disk)
+    (hany : m.tensors.any spills = true) :
+    (exportStd spills m d).side = some ((m.tensors.filter spills).flatMap (fun t => t.data)) := by
+  simp only [exportStd, hany, if_true]
+  rw [place_bytes]
+  simp
+
+/-- every external reference lies inside the sidecar written by this export -/
+theorem stale_never_referenced (spills : Tensor → Bool) (m : Model) (d : Disk) (mf : MainFile)
+    (hmf : (exportStd spills m d).main = some mf) (e : Entry) (off len : Nat) (he : e ∈ mf.entries)
+    (hst : e.stored = .ext off len) :
+    ∃ newSide, (exportStd spills m d).side = some newSide ∧ off + len ≤ newSide.length := by
+  unfold exportStd at hmf ⊢
+  split at hmf
+  · rename_i hany
+    simp only [hany, if_true]
+    simp only [Option.some.injEq] at hmf
+    subst hmf
+    have := place_refs spills m.tensors [] e off len he hst
+    exact ⟨_, rfl, this.2⟩
+  · simp only [Option.some.injEq] at hmf
+    subst hmf
+    exact absurd hst (inlineAll_no_ext _ e off len he)
 
 /-- **Web mode is a single self-contained file.** -/
 theorem web_self_contained (m : Model) (d : Disk) :
@@ -130,27 +157,6 @@ theorem web_self_contained (m : Model) (d : Disk) :
     simp only [exportWeb, load]
     rw [inlineAll_read]
     rfl
-
-/-- **A stale sidecar is never picked up**: after a standard export every external reference
-    lies inside the bytes this export appended (beyond everything that was there before), and the
-    old bytes are still where they were. -/
-theorem stale_never_referenced (spills : Tensor → Bool) (m : Model) (d : Disk) (mf : MainFile)
-    (hmf : (exportStd spills m d).main = some mf) (e : Entry) (off len : Nat) (he : e ∈ mf.entries)
-    (hst : e.stored = .ext off len) :
-    ∃ newSide, (exportStd spills m d).side = some newSide ∧
-      (d.side.getD []).length ≤ off ∧ off + len ≤ newSide.length ∧
-      ∃ suf, newSide = d.side.getD [] ++ suf := by
-  unfold exportStd at hmf ⊢
-  split at hmf
-  · rename_i hany
-    simp only [hany, if_true]
-    simp only [Option.some.injEq] at hmf
-    subst hmf
-    have := place_refs spills m.tensors (d.side.getD []) e off len he hst
-    exact ⟨_, rfl, this.1, this.2, place_appends spills m.tensors (d.side.getD [])⟩
-  · simp only [Option.some.injEq] at hmf
-    subst hmf
-    exact absurd hst (inlineAll_no_ext _ e off len he)
 
 /-- **The modes agree.** For one request, the standard and the web file — written over arbitrary,
     different earlier contents — load to the same model, and that model is the request's
@@ -176,7 +182,7 @@ theorem layout_step (d : Disk) (op : Op) :
     · trivial
   | standard =>
     cases hc : op.clash with
-    | true => simp
+    | true => simp [Disk.toL]
     | false =>
       simp only [Bool.false_eq_true, if_false, exportStd, Model.req]
       have hany := any_spills_toL op.model.tensors
@@ -184,13 +190,10 @@ theorem layout_step (d : Disk) (op : Op) :
       · have ha' : (op.model.tensors.map fun t => (t.name, t.raw, t.data.length)).any
             (fun (x : String × Bool × Nat) => spillsSize x.2.1 x.2.2) = true := by rw [hany]; exact ha
         simp only [ha, ha', if_true, Disk.toL, Option.map]
-        have := place_toL op.model.tensors (ds.getD [])
-        have hl : (ds.getD []).length = (Option.map List.length ds).getD 0 := by
-          cases ds <;> simp
-        rw [hl] at this
+        have := place_toL op.model.tensors []
+        simp only [List.length_nil] at this
         refine ⟨?_, ?_⟩
-        · simp only [Option.map] at this ⊢
-          rw [this.1, this.2]
+        · rw [this.1, this.2]
         · trivial
       · have ha1 : op.model.tensors.any spillsReal = false := by simpa using ha
         have ha' : (op.model.tensors.map fun t => (t.name, t.raw, t.data.length)).any
@@ -198,16 +201,13 @@ theorem layout_step (d : Disk) (op : Op) :
         simp only [ha1, ha', Bool.false_eq_true, if_false, Disk.toL, Option.map]
         refine ⟨?_, ?_⟩
         · rw [inlineAll_toL]
-          cases ds with
-          | none => simp
-          | some s =>
-            cases s with
-            | nil => simp
-            | cons x xs => simp
         · trivial
 
-/-- **Exports are carried out (partial)**: unless a file with the sidecar's name exists in the
-    current working directory. -/
+/-! ### residual: a foreign file with the sidecar's name in the current working directory -/
+
+/-- **Exports are carried out (partial)**: unless a foreign file with the sidecar's name exists
+    in the current working directory.  Still needed after the fix: the check is inside
+    `onnx.save_model` and looks at the cwd, not at the destination directory. -/
 theorem export_succeeds_partial (spills : Tensor → Bool) (d : Disk) (op : Op) (h : op.clash = false) :
     (step spills d op).2 = true := by
   rw [step_ok_eq]
@@ -215,23 +215,53 @@ theorem export_succeeds_partial (spills : Tensor → Bool) (d : Disk) (op : Op) 
   cases op.mode <;> simp [h]
 
 def big : Model := ⟨1, [⟨"c", true, List.replicate 8 7⟩]⟩
+def small : Model := ⟨2, [⟨"c", true, [1, 2]⟩]⟩
 def smallSpill (t : Tensor) : Bool := decide (4 ≤ t.data.length)
 
-/-- **The unconditional statement is refuted**: the second standard export to a path in the
-    current working directory (the first one left `<name>.onnx.data` there) is refused. -/
+/-- **The unconditional statement is refuted** (replayed on the real code: exporting even a small
+    model to `/out/model.onnx` from a directory that contains a file `model.onnx.data` raises
+    FileExistsError). -/
 theorem export_always_succeeds_refuted :
     ¬ (∀ (spills : Tensor → Bool) (d : Disk) (op : Op), (step spills d op).2 = true) := by
   intro h
-  have := h smallSpill (step smallSpill ⟨none, none⟩ ⟨.standard, big, false⟩).1 ⟨.standard, big, true⟩
+  have := h smallSpill ⟨none, none⟩ ⟨.standard, small, true⟩
   simp [step] at this
 
--- non-vacuity: a history large → large → small → web on one path (threshold 4 bytes):
--- the sidecar grows by appending, the small export leaves it stale, the web export removes it
-example : (run smallSpill ⟨none, none⟩ [⟨.standard, big, false⟩, ⟨.standard, big, false⟩]).toL
-    = ⟨some [("c", .ext 8 8)], some 16⟩ := by decide
-example : (run smallSpill ⟨none, none⟩
-    [⟨.standard, big, false⟩, ⟨.standard, ⟨2, [⟨"c", true, [1, 2]⟩]⟩, false⟩]).toL
-    = ⟨some [("c", .inline 2)], some 8⟩ := by decide
+/-- … and the refused export has already removed the destination's sidecar: a previous export
+    with external tensors is no longer loadable (main file unchanged). -/
+theorem refused_export_drops_sidecar (spills : Tensor → Bool) (d : Disk) (op : Op)
+    (h : (step spills d op).2 = false) : (step spills d op).1 = ⟨d.main, none⟩ := by
+  unfold step at h ⊢
+  cases hm : op.mode with
+  | web => simp [hm] at h
+  | standard =>
+    simp only [hm] at h ⊢
+    cases hc : op.clash with
+    | true => simp
+    | false => simp [hc] at h
+
+example : load (run smallSpill ⟨none, none⟩ [⟨.standard, big, false⟩, ⟨.standard, small, true⟩]) = none := by
+  decide
+
+/-! ### regression: the step function before fix f6799b2 -/
+
+/-- the old standard export appended to an existing sidecar … -/
+theorem old_export_appends :
+    (exportStdOld smallSpill big (exportStdOld smallSpill big ⟨none, none⟩)).toL
+      = ⟨some [("c", .ext 8 8)], some 16⟩ := by decide
+
+/-- … so the sidecar grew with every re-export; the repaired export starts afresh -/
+theorem old_sidecar_grows_new_does_not :
+    ((exportStdOld smallSpill big (exportStdOld smallSpill big (exportStdOld smallSpill big ⟨none, none⟩))).side.map
+        List.length = some 24) ∧
+    ((run smallSpill ⟨none, none⟩ [⟨.standard, big, false⟩, ⟨.standard, big, false⟩, ⟨.standard, big, false⟩]).toL
+        = ⟨some [("c", .ext 0 8)], some 8⟩) := by decide
+
+-- non-vacuity: large → small (no sidecar left), garbage sidecar → standard → web, threshold pinned
+example : (run smallSpill ⟨none, none⟩ [⟨.standard, big, false⟩, ⟨.standard, small, false⟩]).toL
+    = ⟨some [("c", .inline 2)], none⟩ := by decide
+example : (run smallSpill ⟨none, some [9, 9, 9]⟩ [⟨.standard, big, false⟩]).toL
+    = ⟨some [("c", .ext 0 8)], some 8⟩ := by decide
 example : (run smallSpill ⟨none, some [9, 9, 9]⟩ [⟨.standard, big, false⟩, ⟨.web, big, false⟩]).toL
     = ⟨some [("c", .inline 8)], none⟩ := by decide
 example : load (run smallSpill ⟨none, some [9, 9, 9]⟩ [⟨.standard, big, false⟩]) = some big := by decide
